@@ -780,6 +780,10 @@ func byteMutant(rng *rand.Rand, e *wire.Envelope) (*wire.Envelope, string, []byt
 }
 
 func oneCase(s sink.Sink, em *childrun.Emitter, rng *rand.Rand, idx int, sample bool) {
+	if rng.Intn(8) == 0 {
+		deviationCase(s, em, rng, idx, sample)
+		return
+	}
 	// choose the hostile sequence
 	nMsgs := 1 + rng.Intn(2)
 	var hs []hostile
